@@ -21,6 +21,8 @@ only = None
 if "--checks" in sys.argv:
     only = sys.argv[sys.argv.index("--checks") + 1].split(",")
 src = "/tmp/seedwt/%s/seed/%s" % (prop, n)
+if not os.path.exists(src):
+    src = "/verif/seeded/%s-%s" % (prop, n)  # already archived: re-validate from the archive
 patch = os.path.join(src, "patch.diff")
 demo = os.path.join(src, "demo.rs")
 VW = "/tmp/seedverify"
@@ -124,9 +126,11 @@ for c, r in sorted(results.items()):
 # ---- 3. store
 dst = "/verif/seeded/%s-%s" % (prop, n)
 os.makedirs(dst, exist_ok=True)
-shutil.copy(patch, dst + "/patch.diff")
-shutil.copy(demo, dst + "/demo.rs")
-if os.path.exists(src + "/README.md"):
-    shutil.copy(src + "/README.md", dst + "/README.md")
+if os.path.abspath(src) != os.path.abspath(dst):
+    shutil.copy(patch, dst + "/patch.diff")
+    shutil.copy(demo, dst + "/demo.rs")
+    if os.path.exists(src + "/README.md"):
+        shutil.copy(src + "/README.md", dst + "/README.md")
+if os.path.exists(dst + "/README.md"):
     meta["needs_to_manifest"] = "see README.md (written by the sub-agent)"
 json.dump(meta, open(dst + "/meta.json", "w"), indent=1)
